@@ -12,8 +12,8 @@ text / both models stop at a non-finite operation / no claim where the C model h
 
 Hypotheses that appear:
 * `inI32 (T.N… Z)` — the counts of the tables are C `int`s (they are `int` arrays in C and `int[]` in Java);
-* `KVecOk T Z k` — the Kissel vectors of sub-shell `k` have the length their count says (Java checks subscripts against the count,
-  C against the allocated length);
+* `KVecOk T Z k` — the Kissel vectors of an OCCUPIED sub-shell `k` have the length their count says (Java checks subscripts against the
+  count, C against the allocated length; an empty sub-shell has the count 0 and a one-element dummy, and is never read);
 * `haw : … = .ok v → 0 < T.AtomicWeight_arr Z` — Java reads `AtomicWeight_arr[Z]` raw where C calls `AtomicWeight` (fails on `≤ 0`): the two
   differ exactly when a cross section exists for an element without atomic weight — excluded, reported as a latent difference;
 * `hq`, `hEq`, `h92` — the excluding hypotheses of the witnesses W1, W2, W5 of notes/C19M_REPORT.md.
@@ -349,8 +349,8 @@ variable (T : Tables ℝ) (Z m : Int) (hZ : inI32 Z) (hm : inI32 m) (E : ℝ) (s
 include hZ hm hs
 
 theorem java_eq_c_CSb_Photo_Partial (hN : inI32 (T.NE_Photo_Partial_Kissel Z.toNat m.toNat))
-    (hlenE : (T.E_Photo_Partial_Kissel Z.toNat m.toNat).len = T.NE_Photo_Partial_Kissel Z.toNat m.toNat)
-    (hlenP : (T.Photo_Partial_Kissel Z.toNat m.toNat).len = T.NE_Photo_Partial_Kissel Z.toNat m.toNat)
+    (hlenE : ¬ T.Electron_Config_Kissel Z.toNat m.toNat < 1.0e-6 → (T.E_Photo_Partial_Kissel Z.toNat m.toNat).len = T.NE_Photo_Partial_Kissel Z.toNat m.toNat)
+    (hlenP : ¬ T.Electron_Config_Kissel Z.toNat m.toNat < 1.0e-6 → (T.Photo_Partial_Kissel Z.toNat m.toNat).len = T.NE_Photo_Partial_Kissel Z.toNat m.toNat)
     (hq : m < 28 ∨ T.Electron_Config_Kissel Z.toNat m.toNat < 1.0e-6) :
     JRel (JGen.CSb_Photo_Partial (JTables.ofC T) Z m E) (Gen.CSb_Photo_Partial T Z m E s) s := by
   jeq_start JGen.CSb_Photo_Partial Gen.CSb_Photo_Partial
@@ -364,6 +364,8 @@ theorem java_eq_c_CSb_Photo_Partial (hN : inI32 (T.NE_Photo_Partial_Kissel Z.toN
   jeq_simp
   by_cases hcfg : T.Electron_Config_Kissel Z.toNat m.toNat < 10e-7
   · jeq_auto
+  have hlenE := hlenE hcfg
+  have hlenP := hlenP hcfg
   have hm28 : m < 28 := by
     rcases hq with h | h
     · exact h
@@ -402,8 +404,8 @@ theorem java_pos_CSb_Photo_Partial : JPos (JGen.CSb_Photo_Partial (JTables.ofC T
   jpos_struct
 
 theorem java_eq_c_CS_Photo_Partial (hN : inI32 (T.NE_Photo_Partial_Kissel Z.toNat m.toNat))
-    (hlenE : (T.E_Photo_Partial_Kissel Z.toNat m.toNat).len = T.NE_Photo_Partial_Kissel Z.toNat m.toNat)
-    (hlenP : (T.Photo_Partial_Kissel Z.toNat m.toNat).len = T.NE_Photo_Partial_Kissel Z.toNat m.toNat)
+    (hlenE : ¬ T.Electron_Config_Kissel Z.toNat m.toNat < 1.0e-6 → (T.E_Photo_Partial_Kissel Z.toNat m.toNat).len = T.NE_Photo_Partial_Kissel Z.toNat m.toNat)
+    (hlenP : ¬ T.Electron_Config_Kissel Z.toNat m.toNat < 1.0e-6 → (T.Photo_Partial_Kissel Z.toNat m.toNat).len = T.NE_Photo_Partial_Kissel Z.toNat m.toNat)
     (hq : m < 28 ∨ T.Electron_Config_Kissel Z.toNat m.toNat < 1.0e-6) :
     JRel (JGen.CS_Photo_Partial (JTables.ofC T) Z m E) (Gen.CS_Photo_Partial T Z m E s) s := by
   by_cases hz : Z < 1 ∨ Z > 120
@@ -640,11 +642,12 @@ end totals
 /-- bring the value-or-zero fact of an accessor call into the context -/
 macro "jeq_have_catch" t:term : tactic => `(tactic| obtain ⟨v, hc, hj⟩ := $t)
 
-/-- well-formedness of the Kissel vectors of sub-shell `k` of element `Z`: the counts are `int`s and equal the vector lengths -/
+/-- well-formedness of the Kissel vectors of sub-shell `k` of element `Z`: the count is an `int` and, where the sub-shell is occupied
+(the only case in which the vectors are read), equals the lengths of the two vectors (an empty sub-shell has count 0 and one-element dummies) -/
 def KVecOk (T : Tables ℝ) (Z k : Int) : Prop :=
   inI32 (T.NE_Photo_Partial_Kissel Z.toNat k.toNat) ∧
-  (T.E_Photo_Partial_Kissel Z.toNat k.toNat).len = T.NE_Photo_Partial_Kissel Z.toNat k.toNat ∧
-  (T.Photo_Partial_Kissel Z.toNat k.toNat).len = T.NE_Photo_Partial_Kissel Z.toNat k.toNat
+  (¬ T.Electron_Config_Kissel Z.toNat k.toNat < 1.0e-6 → (T.E_Photo_Partial_Kissel Z.toNat k.toNat).len = T.NE_Photo_Partial_Kissel Z.toNat k.toNat) ∧
+  (¬ T.Electron_Config_Kissel Z.toNat k.toNat < 1.0e-6 → (T.Photo_Partial_Kissel Z.toNat k.toNat).len = T.NE_Photo_Partial_Kissel Z.toNat k.toNat)
 
 section phelpers
 variable (T : Tables ℝ) (Z : Int) (hZ : inI32 Z) (E PK PL1 PL2 PL3 PM1 PM2 PM3 PM4 : ℝ) (s : Slot) (hs : s.isFull = false)
@@ -1010,7 +1013,7 @@ noncomputable def Tnv : Tables ℝ :=
             Photo_Partial_Kissel := fun _ _ => ⟨2, fun _ => 1⟩ }
 
 example : inI32 (Tnv.Nq_Rayl (1 : Int).toNat) := by decide
-example : KVecOk Tnv 26 1 := ⟨by decide, rfl, rfl⟩
+example : KVecOk Tnv 26 1 := ⟨by decide, fun _ => rfl, fun _ => rfl⟩
 example (q : ℝ) : ∀ v, JGen.FF_Rayl (JTables.ofC Tnv) 26 q = .ok v → 0 ≤ Tnv.AtomicWeight_arr (26 : Int).toNat := by
   intro _ _; show (0 : ℝ) ≤ 12; norm_num
 /-- the C side returns a value on this table (so `java_eq_c_FF_Rayl` says: Java returns the same value) -/
